@@ -251,6 +251,40 @@ CHECKS["C17"] = (
     "DESIGN.md §3 C17",
 )
 
+CHECKS["C12"] = (
+    "exploration",
+    "bounded-exhaustive enumeration of (model graph x point x rescale flag x density x parameter element), autograd vs Richardson finite differences on freshly built graphs",
+    "For every (callable density, base parameter element) pair of every model graph of a declared finite family - "
+    "the CLI-generated graphs, every rooted topology on 3-4 (thorough 5) heterochronous tips x {ratio, shift} "
+    "carrying all tree priors and likelihoods, every unrooted 4-5-taxon topology, all substitution x site models "
+    "including the symmetric interior points, an underflowing 540-taxon likelihood, every shipped transform, "
+    "GMRF / scale-mixture / bridge / MVN densities and joints - at three generic interior points plus "
+    "one-parameter-at-a-time neutral points, with and without forced rescaling, the autograd gradient read "
+    "from parameter.grad is compared with a Richardson central finite difference whose every function value "
+    "comes from a graph freshly built from JSON (1e-5*max(1,|g|), ~100x measured head-room); a gradient that "
+    "is missing, zero, non-finite or whose backward raises is reported wherever the numerical derivative "
+    "exceeds 1e-6. Pairs are judged only where the value function is smooth (two-step and one-sided "
+    "consistency tests; event times at least 0.05 apart). 181k evaluations quick, 399k thorough.",
+    "Densities that do not evaluate at all (C08/C09 findings), batched sample dimensions, float32/CUDA and stochastic objectives are not covered; one open finding (eigh backward at repeated eigenvalues).",
+    "DESIGN.md §3 C12",
+)
+CHECKS["C14"] = (
+    "exploration",
+    "bounded-exhaustive enumeration of conjugate configurations x objectives x sample shapes x every assignment of scripted draws, against closed-form log marginal likelihoods",
+    "25 conjugate model / variational-form configurations built from the shipped distribution wrappers "
+    "(untransformed, behind Exp/Sigmoid/Affine transforms with their Jacobian terms in the CLI's nested joint "
+    "shape, multivariate normal in three parameterisations, mean-field products) on a hyper-parameter x data "
+    "lattice, through both the JSON loader and anonymous Python construction, x {ELBO, analytic-entropy ELBO, "
+    "multi-sample ELBO, VR alpha in {0,.5,2}, CUBO n in {1,2}, KLpq} x sample shapes [S] and [S,K] x EVERY "
+    "assignment of scripted menu values to the S*K*dim base draws (154k assignments quick, 533k thorough, "
+    "counts asserted against menu^slots). With q set to the exact posterior each objective, invoked twice the "
+    "way Optimizer._run does, must equal the closed-form log marginal likelihood to 1e-9 for every draw "
+    "(observed deviation <= 7e-15); each request must redraw with the requested shape, write the draws into "
+    "the shared parameters and evaluate p and q at those values.",
+    "Nothing is claimed between lattice points, for larger sample shapes, or for surrogate objectives (score ELBO, KLpqImportance, SELBO); one open finding (bare Distribution as q).",
+    "DESIGN.md §3 C14",
+)
+
 NOT_APPLICABLE = {}
 
 PENDING_REASON = ("check not built yet in this revision (planned in DESIGN.md §3); "
